@@ -48,6 +48,8 @@ type VM struct {
 	send_chans   []chan int
 	result_chans []chan string
 	recv_chan    chan int
+	stop_chan    chan struct{}
+	launched     bool
 
 	wait_proc int
 
@@ -151,6 +153,9 @@ func (vm *VM) Processor_execute(psc *procbuilder.SimConfig, instruct <-chan int,
 			} else {
 				resultChan <- ""
 			}
+		case 2:
+			// Stop_processors: the simulation is over
+			return
 		}
 	}
 }
@@ -182,6 +187,8 @@ func (vm *VM) Init() error {
 
 	cmdChan := make(chan []byte)
 	vm.cmdChan = cmdChan
+	vm.stop_chan = make(chan struct{})
+	vm.launched = false
 
 	for _, ed := range vm.EmuDrivers {
 		ed.Init()
@@ -296,14 +303,31 @@ func (vm *VM) Init() error {
 func (vm *VM) EmuDriverDispatcher() {
 	// TODO Complete
 	// fmt.Println("EmuDriverDispatcher", vm.EmuDrivers)
+	stop := vm.stop_chan
 	for {
 		select {
 		case cmd := <-vm.cmdChan:
 			for _, ed := range vm.EmuDrivers {
 				ed.PushCommand(cmd)
 			}
+		case <-stop:
+			return
 		}
 	}
+}
+
+// Stop_processors terminates the goroutines started by Launch_processors (the per-processor
+// workers and the emulation dispatcher). It has to be called when a simulation is over,
+// the VM cannot be stepped afterwards.
+func (vm *VM) Stop_processors() {
+	if !vm.launched {
+		return
+	}
+	vm.launched = false
+	for i := 0; i < len(vm.send_chans); i++ {
+		vm.send_chans[i] <- 2
+	}
+	close(vm.stop_chan)
 }
 
 func (vm *VM) Launch_processors(s *simbox.Simbox) error {
@@ -319,6 +343,7 @@ func (vm *VM) Launch_processors(s *simbox.Simbox) error {
 		}
 		go vm.Processor_execute(psc, vm.send_chans[i], vm.recv_chan, vm.result_chans[i], i)
 	}
+	vm.launched = true
 	return nil
 }
 
